@@ -320,6 +320,47 @@ def gen_samplers(ctx, harness, n_grid, n_rand, n_planck, n_lymanT):
     return ops, groups
 
 
+# ------------------------------------------------- parameter-file constructors of the spectra
+
+H_PLANCK, C_LIGHT, EV_J = 6.626070040e-34, 299792458., 1.6021766208e-19
+# unit -> (kind, scale) as UnitConverter::get_single_unit defines them
+NOTATIONS = {"Hz": ("f", 1.), "s^-1": ("f", 1.), "J": ("e", 1.), "erg": ("e", 1.e-7), "eV": ("e", EV_J),
+             "m": ("l", 1.), "cm": ("l", 0.01), "km": ("l", 1000.), "angstrom": ("l", 1.e-10)}
+
+
+def fmt_number(rng, x):
+    """a decimal notation of x as a user would type it (always with a '.' or exponent; round-trips)"""
+    style = rng.choice(["r", "e", "g"])
+    t = repr(x) if style == "r" else ("%.16e" % x if style == "e" else "%.17g" % x)
+    if "e" not in t and "." not in t and "inf" not in t:
+        t += "."
+    return t
+
+
+def gen_params(ctx, n_values):
+    """one physical frequency written in every notation (Hz, s^-1, J, erg, eV, m, cm, km, angstrom):
+    ops `pmono <bits of the typed number> <unit> <text> <bits of the frequency meant>`; groups = the
+    index ranges that must agree with each other"""
+    rng = ctx.rng
+    ops, groups = [], []
+    nus = [3.288465385e15, 4. * 3.288465385e15, C_LIGHT / 700.e-10, 13.6 * EV_J / H_PLANCK, 1.e15, 1.e17]
+    nus += [3.288465385e15 * 10 ** rng.uniform(0., 0.6) for _ in range(n_values)] + [10 ** rng.uniform(13, 19) for _ in range(max(2, n_values // 3))]
+    for nu in nus:
+        i0 = len(ops)
+        for unit, (kind, scale) in NOTATIONS.items():
+            x = nu / scale if kind == "f" else nu * H_PLANCK / scale if kind == "e" else C_LIGHT / nu / scale
+            txt = fmt_number(rng, x)
+            xv = float(txt)
+            meant = xv * scale if kind == "f" else xv * scale / H_PLANCK if kind == "e" else C_LIGHT / (xv * scale)
+            ops.append("pmono %d %s %s~%s %d" % (B(xv), unit, txt, unit, B(meant)))
+        groups.append((nu, i0, len(ops)))
+    for T in [4.e4, 1.e4, 2.5e4, 10 ** rng.uniform(3.5, 6)] + [10 ** rng.uniform(3.5, 6) for _ in range(max(1, n_values // 6))]:
+        for txt in sorted(set([repr(T), "%.16e" % T, "%.17g" % T if "." in "%.17g" % T or "e" in "%.17g" % T else "%.17g." % T])):
+            ops.append("pplanck %d %s~K" % (B(float(txt)), txt))
+    ops.append("pplanck %d default" % B(4.e4))
+    return ops, groups
+
+
 # ------------------------------------------------------------- reference values of the repo
 
 DATA_SHA256 = {  # fingerprints of the shipped tables when the check was last validated (a change is a note, never an alarm)
@@ -439,6 +480,7 @@ def run(ctx):
         "tables: Gen/Verner.lean is regenerated from the shipped data files on every run; the decimal literals denote the exact rationals of the files; the constructor conversions (eV -> Hz, pre-inversion) are part of the model and compared bit for bit with _data_A/_data_B/_data_C/_rrec/_rnew/_fe of the real objects",
         "'sampled frequencies follow the cumulative distribution': proved as 'the sampler is the exact inverse of its table' for the linear samplers (piecewise-linear CDF) and the Planck sampler (log-log interpolated CDF); for the Lyman continua only the exact formula is proved (t-weighted mix of the lower bin edges containing u in the two bracketing temperature tables: no interpolation inside the frequency bin, mix of quantiles instead of quantile of a mix) — sample_follows_table_cdf_lyman_partial; that the tables are the physical CDFs is searched: monotonicity of nu(u) and the deviation from an independently integrated Planck / uniform / linearly-masked distribution are evaluated on the implementation's samples (tolerance = one table bin)",
         "Planck: the constructor is modelled (Model/Planck.lean; the driver BUILDS the three tables and they are compared bit for bit with the real ones) and planck_tables_wellformed proves every table hypothesis for every T > 0, so planck_spectrum_in_range is unconditional; for the other samplers (two-photon, masked, H/He Lyman continua) the constructors are not modelled: the theorems take the table properties as hypotheses (cumulative table sorted with ends 0 and 1, frequency / temperature tables increasing) and the harness checks them on every real table it constructs (ORACLE table-hypothesis)",
+        "parameter-file constructors: MonochromaticPhotonSourceSpectrum(role, params) is driven with one frequency in 9 notations and PlanckPhotonSourceSpectrum(role, params) with temperatures in several decimal notations + the default; required: agreement with the model (bit-identical), with the plain-value constructor and across notations to 1e-12, ionizing value -> ionizing frequency. The ParameterFile constructor of MaskedPhotonSourceSpectrum needs the spectrum/mask factories (every spectrum of the code base incl. HDF5) and is not driven; the Lyman / two-photon / uniform spectra have no physical parameters",
         "random numbers: u in [1e-10, 1) as in the property statement (u < 1e-10, in particular u = 0 which RANLUX can return, leaves the first bin of the log-log Planck interpolation: outside the stated domain)",
         "locate: length >= 2 (all call sites pass 1000, 100, 41 or the number of mask bins); for length <= 1 the unsigned arithmetic of the C++ wraps around",
         "get_charge_transfer_*_rate_H(ION_H_n), ..._He(ION_He_n) and get_charge_transfer_ionization_rate_He abort by design (cmac_error) and are not called by the ionization balance; not evaluated",
@@ -483,7 +525,7 @@ def run(ctx):
         # xs / rec: the model is the published fit of the shipped table rows (sigma_is_fit,
         # sigma_is_sum_of_fits; recombination fits likewise) -> a disagreement is a failing input
         n, impl, model, orc = ctx.correspond(name, h, drv, ops, cmp=cmp, group_start=group_start, oracle_key=oracle_key,
-                                             model_is_spec=("differs-from-published-fit" if name in ("xs", "rec") else "differs-from-given-value" if name == "fixed" else None))
+                                             model_is_spec=("differs-from-published-fit" if name in ("xs", "rec") else "differs-from-given-value" if name == "fixed" else "differs-from-the-frequency-the-parameter-denotes" if name == "params" else None))
         t = Tally(ctx)
         t.add(ops, impl, model, nontrivial, key)
         tallies[name] = t
@@ -512,6 +554,33 @@ def run(ctx):
         for ion in range(info["nion"]):
             fops.append("fxs %d %d %s" % (ion, B(10 ** ctx.rng.uniform(14, 18)), " ".join(str(B(v)) for v in vals)))
     impl, model = stream("fixed", fops, cmp_exact, lambda op, tag: True, oracle_key=lambda what, grp: "fixed:" + what.split()[0])
+
+    # 2c. parameter-file constructors (Monochromatic: frequency in 9 notations; Planck: temperature)
+    pops, pgroups = gen_params(ctx, q(12, 400))
+    impl, model = stream("params", pops, cmp_num, lambda op, tag: tag is not None and "frequency" not in tag,
+                         key=lambda op, t: t.replace("CMacVerif.Notation.Kind.", ""),
+                         oracle_key=lambda what, grp: what.split()[0])
+    worst = 0.
+    for nu, i0, i1 in pgroups:
+        vals = []
+        for o, a in zip(pops[i0:i1], impl[i0:i1]):
+            w = a.split()
+            if len(w) == 2 and w[1].isdigit():
+                vals.append((vlib.bits2f(w[1]), o))
+        if not vals:
+            continue
+        ref = vals[0][0]
+        for v, o in vals:
+            d = abs(v - ref) / max(abs(ref), abs(v), 1e-300)
+            worst = max(worst, d)
+            if not d <= 1.e-12:
+                ctx.violation("param:mono:notations-disagree",
+                              "the same photon frequency written in two notations gives different spectra: %r -> %r Hz but %r -> %r Hz" % (vals[0][1].split()[3].replace("~", " "), ref, o.split()[3].replace("~", " "), v),
+                              {"stream": "params", "ops": [vals[0][1], o], "parameter_text": ["frequency: " + vals[0][1].split()[3].replace("~", " "), "frequency: " + o.split()[3].replace("~", " ")]})
+                break
+    ctx.cov["parameter_notations"] = {"values": len(pgroups), "notations": sorted(NOTATIONS), "max_relative_disagreement": worst}
+    if pops:
+        ctx.sample({"stream": "params", "ops": pops[16:19], "impl": impl[16:19]})
 
     # 2b. reference values shipped with the repo's own (unpinned) tests
     ops, exp = load_reference(info)
@@ -632,6 +701,7 @@ MANIFEST = dict(
           "PARTIAL: sample_follows_table_cdf_lyman_partial states exactly what the two-table Lyman formula returns (t-weighted mix of the lower bin edges containing u), which matches a distribution only at bin resolution; "
           "'the tables are the CDFs of the physical spectra' is searched. "
           "planck_tables_wellformed / planck_spectrum_in_range: the tables the Planck CONSTRUCTOR builds satisfy every hypothesis of the sampler theorem for every T > 0, hence a Planck source of any temperature samples inside [13.6, 54.4] eV for u in [1e-10, 1]; "
+          "notations_of_one_value_agree: a spectrum frequency written in a parameter file as frequency, energy or wavelength (Hz, s^-1, J, erg, eV, m, cm, km, angstrom) denotes value*unit, E/h resp. c/lambda, so all notations of one value give one frequency (model of to_SI<QUANTITY_FREQUENCY>, run against the ParameterFile constructors of the monochromatic and Planck spectra); "
           "coded_shells_are_spec: the shell sums of the C++ switch equal the hand-written specification ionShellsSpec (the driver evaluates the specification, so a changed switch yields a concrete (ion, energy)); fixed_value_cross_sections. "
           "Tie: Float instantiation of the same definitions vs the real classes (100% bit-identical, incl. the 3 x 1000 Planck table entries per temperature), property oracles on the implementation, reference values of the repo's own test data."),
     note=("Trusted: Lean kernel + 3 standard axioms; translator tools/gen_c18_tables.py (render-back stream `tables`: generated rows after the model's constructor stage == _data_A/_data_B/_data_C/_rrec/_rnew/_fe of the real "
